@@ -2,11 +2,18 @@ package raft
 
 import (
 	"context";
+	"strconv";
+	"strings";
 
 	pb "github.com/marekgalovic/anndb/protobuf";
 
 	"github.com/golang/protobuf/proto";
 )
+
+// Snapshot keys under which the cluster address book is stored, one per node.
+// Membership entries are compacted together with the rest of the log, so the
+// addresses they carried have to travel in the snapshot.
+const nodeAddressSnapshotPrefix = "__node_address/"
 
 // Shared group
 type sharedGroup struct {
@@ -60,6 +67,14 @@ func (this *sharedGroup) processSnapshot(data []byte) error {
 	}
 
 	for proxyName, proxySnapshot := range snapshot.GetProxySnapshots() {
+		if strings.HasPrefix(proxyName, nodeAddressSnapshotPrefix) {
+			nodeId, err := strconv.ParseUint(proxyName[len(nodeAddressSnapshotPrefix):], 10, 64)
+			if err != nil {
+				return err
+			}
+			this.group.transport.addNodeAddress(nodeId, string(proxySnapshot))
+			continue
+		}
 		proxy := this.proxies[proxyName]
 		if err := proxy.processSnapshotFn(proxySnapshot); err != nil {
 			return err
@@ -78,6 +93,10 @@ func (this *sharedGroup) snapshot() ([]byte, error) {
 				return nil, err
 			}
 		}
+	}
+
+	for nodeId, address := range this.group.transport.clusterConn.Nodes() {
+		proxySnapshots[nodeAddressSnapshotPrefix + strconv.FormatUint(nodeId, 10)] = []byte(address)
 	}
 
 	return proto.Marshal(&pb.SharedGroupSnapshot{ProxySnapshots: proxySnapshots})
